@@ -21,6 +21,32 @@ func expectedMapping(where string, n *yaml.Node) error {
 	)
 }
 
+// removeNullTagsFromCollections removes explicit !!null tags from mapping and sequence nodes. yaml.v3
+// does not call UnmarshalYAML methods for nodes with the tag and decodes their contents as they are.
+// It breaks what the methods ensure (for example, they never store nil in elements).
+func removeNullTagsFromCollections(n *yaml.Node) {
+	if n.Tag == "!!null" && (n.Kind == yaml.MappingNode || n.Kind == yaml.SequenceNode) {
+		n.Tag = ""
+	}
+	for _, c := range n.Content {
+		removeNullTagsFromCollections(c)
+	}
+}
+
+// decodeYAML decodes the YAML source into the given value like yaml.Unmarshal. It ensures UnmarshalYAML
+// methods of types in this package are called for all mapping and sequence nodes.
+func decodeYAML(src []byte, out interface{}) error {
+	var n yaml.Node
+	if err := yaml.Unmarshal(src, &n); err != nil {
+		return err
+	}
+	if n.Kind == 0 {
+		return nil // Empty source
+	}
+	removeNullTagsFromCollections(&n)
+	return n.Decode(out)
+}
+
 // ReusableWorkflowMetadataInput is an input metadata for validating local reusable workflow file.
 type ReusableWorkflowMetadataInput struct {
 	// Name is a name of the input defined in the reusable workflow.
@@ -353,7 +379,7 @@ func parseReusableWorkflowMetadata(src []byte) (*ReusableWorkflowMetadata, error
 	}
 
 	var w workflow
-	if err := yaml.Unmarshal(src, &w); err != nil {
+	if err := decodeYAML(src, &w); err != nil {
 		return nil, err // Unreachable
 	}
 
